@@ -40,7 +40,8 @@ PORTS_UDP = {
 OPTIONS_TCP = ["", "ack", "syn", "ack syn", "fin psh urg", "rst", "log", "ack log", "log-input", "syn log-input", "ack fin psh rst syn urg"]
 OPTIONS_OTHER = ["", "log", "log-input"]
 SEQS = ["", "1", "10", "4294967295"]
-SPACES = [lambda s: s, lambda s: "  " + s.replace(" ", "  ") + " "]
+SPACES = [lambda s: s, lambda s: "  " + s.replace(" ", "  ") + " ",
+          lambda s: "\t" + s.replace(" ", " \t    ") + "   "]      # column-aligned text: tabs and runs of blanks, well over 100 characters
 
 
 def _line(seq, action, proto, src, sport, dst, dport, opt):
@@ -90,9 +91,14 @@ def gen_ace(platform: str, tier: str = "quick", seed: int = 0):
             yield from emit("", "permit", "ip", a, "", b, "", "")
             yield from emit("", "permit", "tcp", a, "eq 80", b, "gt 1023", "")
     for seq in SEQS:
-        for sp in (0, 1):
+        for sp in (0, 1, 2):
             yield from emit(seq, "permit", "tcp", A[1], "eq 80", A[3], "range 20 21", "ack log", space=sp)
             yield from emit(seq, "deny", "ip", A[0], "", A[4], "", "log", space=sp)
+    # entries longer than 100 characters without any padding (a device has no such limit)
+    if platform == "ios":
+        many = " ".join(str(p) for p in (20, 21, 22, 23, 25, 53, 80, 110, 143, 443))
+        yield from emit("4294967295", "permit", "tcp", "10.0.0.0 0.0.0.255", f"eq {many}", "192.168.0.0 0.0.255.255", f"eq {many}", "ack fin psh rst syn urg log")
+    yield from emit("4294967295", "permit", "tcp", A[3], "range 1024 65535", A[4], "range 1024 65535", "ack fin psh rst syn urg log-input" if platform == "ios" else "ack fin psh rst syn urg log")
     # pairs srcport x dstport for tcp and udp
     for proto in ("tcp", "udp"):
         P = ports_for(proto, platform)
@@ -104,7 +110,7 @@ def gen_ace(platform: str, tier: str = "quick", seed: int = 0):
             proto = rnd.choice(PROTOS[platform])
             yield from emit(rnd.choice(SEQS), rnd.choice(ACTIONS), proto, rnd.choice(A), rnd.choice(ports_for(proto, platform)),
                             rnd.choice(A), rnd.choice(ports_for(proto, platform)), rnd.choice(options_for(proto)),
-                            space=rnd.choice((0, 0, 1)))
+                            space=rnd.choice((0, 0, 1, 2)))
 
 
 VERSIONS = ["0", "15", "16", "9"]
